@@ -46,7 +46,21 @@ Example C07_example :
   fst (backend_count [97]%N 5 (repeat 97%N 100) BNeon) = Ok 100.
 Proof. vm_compute. split; reflexivity. Qed.
 
+(* raw-pointer form count_raw(start, end): 0 when start >= end, else the number of matches inside [so, eo) *)
+Theorem C07_raw : forall (b : backend) n a h so eo,
+  bytes_ok h -> (n < 256)%N -> eo <= length h ->
+  fst (backend_count_raw [n] a h so eo b)
+    = Ok (if eo <=? so then 0 else count_p (confirm [n]) (raw_range h so eo)) /\
+  loads_ok (a + so) (eo - so) 0 0 (snd (backend_count_raw [n] a h so eo b)).
+Proof.
+  intros b n a h so eo Hh Hn He.
+  assert (bytes_ok [n]) as Hns by (constructor; [exact Hn|constructor]).
+  destruct (satq_fst _ _ _ (backend_count_raw_sat [n] a h so eo ltac:(discriminate) He b eq_refl)) as (v & Hv & -> & Ht).
+  split; assumption.
+Qed.
+
 Print Assumptions C07_generic.
 Print Assumptions C07_backend.
 Print Assumptions C07_spec.
 Print Assumptions C07_iter_count.
+Print Assumptions C07_raw.
